@@ -385,6 +385,26 @@ pub fn gen_case(r: &mut Prng, big: bool) -> (Case, [u64; 4]) {
     // the history always ends with a chain over the final table
     let last = g.chain(false);
     g.case.pre.push(Op::Parse { prog: last });
+    // hot reload (a third of the histories, decided without a draw): the host re-installs a definition it
+    // installed before - the SAME handler Arc - after ANOTHER thread installed a different one under that
+    // name in between; the re-installation is the registration made last
+    if g.case.pre.len() % 3 == 1 {
+        let last_reg = g.case.pre.iter().rev().find(|o| matches!(o, Op::RegFn { .. } | Op::RegPre { .. } | Op::RegPost { .. } | Op::RegIn { setter: false, .. })).cloned();
+        if let Some(a) = last_reg {
+            let (b, use_it) = match &a {
+                Op::RegFn { name, .. } => (Op::RegFn { name: name.clone(), h: g.marker(HKind::Func) }, call(name, vec![lit_i(1)])),
+                Op::RegPre { name, .. } => (Op::RegPre { name: name.clone(), h: g.marker(HKind::Prefix) }, un(name, lit_i(1))),
+                Op::RegPost { name, .. } => (Op::RegPost { name: name.clone(), h: g.marker(HKind::Postfix) }, post(lit_i(1), name)),
+                Op::RegIn { name, prec, right, .. } => {
+                    (Op::RegIn { name: name.clone(), prec: *prec, setter: false, right: *right, h: g.marker(HKind::Infix) }, bin(name, lit_i(1), lit_i(2)))
+                }
+                _ => unreachable!(),
+            };
+            let eval = Op::Exec { prog: Prog::one(use_it), ctx: CtxRef::Fresh(CtxSpec::empty()) };
+            g.case.tag = "C08+reload".into();
+            g.case.pre.extend(vec![a.clone(), eval.clone(), Op::OnThread { ops: vec![b, eval.clone()] }, a, eval]);
+        }
+    }
     let stats = [g.adjacent_pairs, g.chains, g.overrides, g.shadows];
     (g.case, stats)
 }
@@ -419,7 +439,7 @@ impl Prop for C08 {
                 "built-in operator values come from the engine used as a calculator",
             ],
             fault_kinds: &["fresh_process", "register_before_first_use", "thread_teardown"],
-            probes: &["adjacent_precedence_pair_in_chain", "builtin_overridden", "context_shadows_global", "chains", "operation_on_another_thread", "word_used_before_it_became_an_operator"],
+            probes: &["adjacent_precedence_pair_in_chain", "builtin_overridden", "context_shadows_global", "chains", "operation_on_another_thread", "word_used_before_it_became_an_operator", "same_handler_reinstalled_after_another_thread_replaced_it"],
         }
     }
 
@@ -451,6 +471,9 @@ impl Prop for C08 {
         }
         if case.pre.iter().any(|o| matches!(o, Op::OnThreadExit { .. })) {
             rt.fired("thread_teardown", 1);
+        }
+        if case.tag == "C08+reload" {
+            rt.probe("same_handler_reinstalled_after_another_thread_replaced_it");
         }
         if case.pre.windows(2).any(|w| matches!((&w[0], &w[1]), (Op::Exec { .. }, o) if o.is_reg())) {
             rt.probe("word_used_before_it_became_an_operator");
